@@ -193,8 +193,8 @@ def gen_redist(rng, dyadic):
     if not dyadic and mode in ("retimed_equal", "identical", "random"):
         # keep float sums away from an exact-vs-float tie of the `sum1 > sum2` branch
         r2[0] += 1e-3 * (1 + sum(r1)) * rng.choice([1, -1] if r2[0] > 1e-2 * (1 + sum(r1)) else [1])
-    if rng.random() < 0.02:
-        r2 = r2 + [1.0, 2.0]  # shape error
+    if rng.random() < 0.02 and n >= 2:
+        r2 = r2 + [1.0, 2.0]  # shape error (a length-1 series would be broadcast by numpy: not generated)
     return {"kind": "redist", "r1": r1, "r2": r2, "mode": mode, "dyadic": dyadic}
 
 
